@@ -1,5 +1,6 @@
 import Mustache.Basic.LineIO
 import Mustache.Model.WorldStep
+import Mustache.Model.WorldClear
 import Mustache.Model.Lifecycle
 /-! `driver world`: runs the world model on an op file and prints the observation lines of
     `harness/world_driver.cpp` (same grammar, same canonical format). -/
@@ -205,6 +206,19 @@ def exec (s : St) (t : Nat) (ws : List String) : St × String :=
     match s.entity e with
     | some h => (s, if s.w.marked.contains h then "marked=1" else "marked=0")
     | none => (s, "bad-op")
+  | ["clear"] =>
+    if s.w.isLocked then (s, "bad-op") else
+    let (w, cbs) := s.w.clearAll catalogue
+    ({ s with w := w }, "cleared" ++ showCbs s cbs)
+  | ["createin", k] =>
+    match k.toNat? with
+    | some ai =>
+      if ai < s.w.archs.length then
+        let (w, h, cbs) := s.w.createIn catalogue t ai
+        let (s', line) := { s with w := w }.issue h
+        (s', line ++ showCbs s' cbs)
+      else (s, "bad-op")
+    | none => (s, "bad-op")
   | _ =>
   match parseOp s.entity t ws with
   | none => (s, "bad-op")
@@ -232,6 +246,8 @@ def execEvents (s : St) (t : Nat) (ws : List String) : List Event :=
   match ws with
   | ["markdirty", _, _] => []
   | ["marked", _] => []
+  | ["clear"] => []
+  | ["createin", _] => []
   | _ =>
     match parseOp s.entity t ws with
     | none => []
@@ -281,6 +297,12 @@ def step (s : St) (line : String) : St × List String :=
 section SpecStream
 open Mustache.Spec
 
+/-- after `clear()` handle values are re-issued: an ordinal whose handle value was given to a later creation names that entity -/
+def St.latest (st : St) (o : Nat) : Nat :=
+  match st.issued[o]? with
+  | some h => (match st.ordOf.find? (·.1 == h.value) with | some p => p.2 | none => o)
+  | none => o
+
 /-- ordinal named by an entity token: an ordinal, or the (latest) ordinal whose handle has that value -/
 def St.ordinal (s : St) (tok : String) : Option Nat :=
   if tok = "null" then none
@@ -289,17 +311,17 @@ def St.ordinal (s : St) (tok : String) : Option Nat :=
     | some v => (s.ordOf.find? (·.1 == (Handle.ofValue v).value)).bind (fun p => if v < 2^64 ∧ (Handle.ofValue v).value = v then some p.2 else none)
     | none => none
   else match tok.toNat? with
-    | some k => if k < s.issued.size then some k else none
+    | some k => if k < s.issued.size then some (s.latest k) else none
     | none => none
 
 def showSCbs (cbs : List SCb) : String :=
   let strs := cbs.map (fun (cb : SCb) => (if cb.1 then " cb=assign:" else " cb=remove:") ++ letterOf cb.2.1 ++ ":" ++ toString cb.2.2)
   String.join (strs.toArray.qsort (· < ·)).toList
 
-def specDump (ws : WS) (n : Nat) : List String := Id.run do
+def specDump (st : St) (ws : WS) (n : Nat) : List String := Id.run do
   let mut out : List String := ["dump"]
   for o in [0:n] do
-    match ws.alive o with
+    match ws.alive (st.latest o) with
     | none => out := out ++ [s!"E {o} valid=0"]
     | some e =>
       let comps := e.comps.map (fun p => s!"{letterOf p.1}:{showVal p.2}")
@@ -311,6 +333,28 @@ def specExec (st : St) (ws : WS) (t : Nat) (ws_ : List String) : WS × String :=
   match ws_ with
   | ["markdirty", e, _] => (ws, if (st.entity e).isSome then "ok" else "bad-op")
   | ["marked", e] => (ws, if (st.entity e).isSome then "marked=*" else "bad-op")
+  | ["clear"] =>
+    if ws.lockDepth > 0 then (ws, "bad-op") else
+    -- every entity is destroyed (one beforeRemove per callback-bearing component); pending destroys name dead entities now
+    let cbs := (ws.ents.zipIdx).flatMap (fun p => match p.1 with
+      | some e => cbDiff catalogue p.2 (compSet e) []
+      | none => [])
+    ({ ws with ents := ws.ents.map (fun _ => none), marked := [] }, "cleared" ++ showSCbs cbs)
+  | ["createin", k] =>
+    match k.toNat? with
+    | some ai =>
+      if ai < st.w.archs.length then
+        -- `create(Archetype&)` means: create with that archetype's component set and shared values
+        let a := st.w.arch ai
+        let sh := (a.shared.ids.zip a.shared.data).map (fun p => (p.1, instValue st p.1 p.2))
+        if ws.lockDepth > 0 then
+          let o := ws.ents.length
+          ({ ws with ents := ws.ents ++ [none] }.push t (.create o a.mask sh), s!"h {o}")
+        else
+          let (ws, o, cbs) := ws.doCreate catalogue a.mask sh
+          (ws, s!"h {o}" ++ showSCbs cbs)
+      else (ws, "bad-op")
+    | none => (ws, "bad-op")
   | _ =>
   -- an entity token that names no issued handle is rejected by both drivers; otherwise it resolves to an ordinal or to
   -- "a handle nobody was issued" (`none`)
@@ -342,7 +386,7 @@ def specStep (st : St) (ws : WS) (line : String) : WS × List String :=
   | ["defaultctx"] => (ws, ["ok"])
   | ["storagecap", _] => (ws, ["ok"])
   | ["events", _] => (ws, ["ok"])
-  | ["dump"] => (ws, specDump ws st.issued.size)
+  | ["dump"] => (ws, specDump st ws st.issued.size)
   | ["teardown"] => (ws, ["teardown"])
   | [] => (ws, [])
   | w0 :: rest =>
